@@ -12,6 +12,7 @@ import FordModel.Links
 import FordModel.LinksSpec
 import FordModel.Lemmas.Links
 import FordModel.Lemmas.LinkPath
+import FordModel.Lemmas.LinkSites
 namespace Ford.C11
 open Ford Ford.Links
 
@@ -60,6 +61,23 @@ theorem children_search_order :
 theorem getDir_overrides_modelled :
     Generated.C11.getDirOwner.all (fun kv =>
       ["FortranBase", "FortranSubmodule", "FortranProcedure", "FortranInterface"].contains kv.2) = true := by decide
+
+/-- **The project file's text is converted where the base URL points** (`ford.main`, read from the
+    source on every run): the `path=` given to the conversion of the project file's text is the very
+    setting the Markdown object gets as `base_url`, so that `url_correct_from_page_below_base` (with
+    `d = []`, the front page) applies to it - also when `project_url` differs from `output_dir`. -/
+theorem project_file_converted_at_base_url :
+    Generated.C11.projDocsPath = Generated.C11.mdBaseUrl := by decide
+
+/-- The conversion sites of the context-free texts (`ford.main`: project file, summary,
+    `get_page_tree`'s root; `PageNode.__init__`: `<root> / "page" / ...`) use only settings the
+    harness and the model know; `"none"` = no `path=` at all (finding C11-context-without-url). -/
+theorem conversion_sites_modelled :
+    ["proj_data.project_url", "proj_data.output_dir"].contains Generated.C11.mdBaseUrl = true ∧
+    ["proj_data.project_url", "proj_data.output_dir"].contains Generated.C11.projDocsPath = true ∧
+    ["proj_data.project_url", "proj_data.output_dir", "none"].contains Generated.C11.summaryPath = true ∧
+    ["proj_data.project_url", "proj_data.output_dir"].contains Generated.C11.pageTreeRoot = true ∧
+    ["output_dir", "self.base_url", "md.base_url"].contains Generated.C11.pagePathRoot = true := by decide
 
 /-! ### Lookup order -/
 
@@ -110,6 +128,24 @@ theorem parent_contents_win (P : Project) (i j : Nat) (c p : Ent) (n : Str) (id 
   have : (some i : Option Nat).bind P.get = some c := by simpa using hc
   rw [localCandidates_some P (some i) c none this]
   simp [findInList_append, itemsOf, h0, h, hpar, hp, orElse']
+
+/-- **No kind of entity is exempt from the lookup order.**  The lookup reads names, attributes,
+    parents and collections only: replacing the classes / `obj` / identifiers of all entities (`f`
+    arbitrary) never changes which entity a reference selects.  In particular the parent step is
+    taken whatever the parent is - a source file (program units and external procedures of the same
+    file), a module, a type, a procedure. -/
+theorem lookup_ignores_entity_classes (f : List Anc → List Anc) (P : Project) (ctx : Option Nat) (r : Ref) :
+    lookup (reclass f P) ctx r = lookup P ctx r :=
+  reclass_lookup f P ctx r
+
+/-- ... so the parent's contents win over every project-wide namesake for parents of every class. -/
+theorem parent_contents_win_for_every_parent_class (f : List Anc → List Anc) (P : Project) (i j : Nat)
+    (c p : Ent) (n : Str) (id : Nat)
+    (hc : P.get i = some c) (hpar : c.parent = some j) (hp : P.get j = some p)
+    (h0 : findInList P n (children c) = none) (h : findInList P n (children p) = some id) :
+    lookup (reclass f P) (some i) { name := n } = .ok (some id) := by
+  rw [reclass_lookup]
+  exact parent_contents_win P i j c p n id hc hpar hp h0 h
 
 /-- **Qualifier honoured** (component part): when `[[name(kind)]]` yields a link, the target is an
     element of the collection the kind designates - the SUBLINK_TYPES list of the context or of its
@@ -239,6 +275,32 @@ theorem url_correct_from_given_path (env : Env) (P : Project) (ctx : Option Nat)
   refine ⟨relpath (env.base ++ u.segs) p, ?_, resolve_relpath _ p hplain⟩
   simp [hrefOf, hte, htu, currentPath]
 
+/-- **The hrefs do not depend on where the site is written or served.**  The pages are written below
+    `output_dir` and may be served from anywhere (`out` arbitrary), the hrefs are computed below the
+    base URL (`project_url`): the href of text belonging to an entity resolves, from every directory
+    one level below *any* root `out`, to the target's page below that same root. -/
+theorem url_correct_from_every_written_entity_page (env : Env) (P : Project) (ctx : Option Nat) (c t : Ent) (uc u : Url)
+    (hc : ctx.bind P.get = some c) (hce : c.extUrl = none) (hcu : urlOfChain c.chain = some uc)
+    (hte : t.extUrl = none) (htu : urlOfChain t.chain = some u)
+    (hdir : (u.dir == nonExistentDir) = false) (hplain : Plain u.segs) (out : Path) (d : Str) :
+    ∃ rel, hrefOf env (currentPath env P ctx none) t = .ok (joinSep '/' rel) ∧
+      resolve (out ++ [d]) rel = out ++ u.segs := by
+  refine ⟨relpath (env.base ++ u.segs) (env.base ++ [nonExistentDir]), ?_, ?_⟩
+  · simp [hrefOf, hte, htu, currentPath_entity env P ctx c uc hc hce hcu]
+  · rw [relpath_common_root env.base, ← relpath_common_root out]
+    exact resolve_from_any_sibling out u.segs u.dir nonExistentDir d [u.lastSeg] rfl hdir hplain
+
+/-- ... and text without entity context (project file: `d = []`; static page: `d = page/...`) that is
+    converted at `base/d` gets hrefs that resolve from `out/d` to the target below `out`, for every
+    root `out` the site is written to - *provided the text is converted below the base URL*
+    (`project_file_converted_at_base_url`; not so for static pages: witness below). -/
+theorem url_correct_from_page_below_base (env : Env) (P : Project) (ctx : Option Nat) (t : Ent) (u : Url)
+    (out d : Path) (hte : t.extUrl = none) (htu : urlOfChain t.chain = some u) (hplain : Plain (out ++ u.segs)) :
+    ∃ rel, hrefOf env (currentPath env P ctx (some (env.base ++ d))) t = .ok (joinSep '/' rel) ∧
+      resolve (out ++ d) rel = out ++ u.segs := by
+  refine ⟨relpath (env.base ++ u.segs) (env.base ++ d), ?_, resolve_relpath_other_root _ _ _ _ hplain⟩
+  simp [hrefOf, hte, htu, currentPath]
+
 /-- The relative-path round trip the two theorems rest on: for all `..`-free targets and all start
     directories, resolving `relpath target start` against `start` gives `target`. -/
 theorem relpath_roundtrip (t s : Path) (ht : Plain t) : resolve s (relpath t s) = t :=
@@ -313,6 +375,66 @@ theorem variable_qualifier_witness :
     convertLink W.env W.P none (some W.env.base)
       { name := "s".toList, child := some "v".toList, childKind := some "variable".toList }
       = .link "s".toList "proc/s.html".toList := by decide
+
+namespace W
+/-- `project_url: https://example.com/docs`: the base URL is a relative `pathlib.Path`
+    (`https:/example.com/docs`), `relpath` takes it from the working directory `/w` -/
+def envUrl : Env :=
+  { base := absolutize ["w".toList] false ["https:".toList, "example.com".toList, "docs".toList], cwd := ["w".toList] }
+/-- where the site is written: `/w/doc` -/
+def out : Path := ["w".toList, "doc".toList]
+end W
+
+/-- **Static page with `project_url`** (finding C11-static-page-with-project-url): `PageNode`
+    converts the page text at `output_dir/page` although the targets live below `project_url`; the
+    href leaves the site.  Converted below the base URL (as the project file's text is) the same
+    reference is correct from the written page `/w/doc/page/index.html`. -/
+theorem static_page_with_project_url_witness :
+    convertLink W.envUrl W.P none (some (W.out ++ ["page".toList])) { name := "m".toList }
+      = .link "m".toList "../../https:/example.com/docs/module/m.html".toList ∧
+    resolve (W.out ++ ["page".toList])
+        ["..".toList, "..".toList, "https:".toList, "example.com".toList, "docs".toList, "module".toList, "m.html".toList]
+      ≠ W.out ++ ["module".toList, "m.html".toList] ∧
+    convertLink W.envUrl W.P none (some (W.envUrl.base ++ ["page".toList])) { name := "m".toList }
+      = .link "m".toList "../module/m.html".toList ∧
+    resolve (W.out ++ ["page".toList]) ["..".toList, "module".toList, "m.html".toList]
+      = W.out ++ ["module".toList, "m.html".toList] := by decide
+
+namespace W2
+/-- two command line tools, one per file: `a.f90` = subroutine usage + program alpha_tool,
+    `b.f90` = subroutine usage (identifier `usage~2`) + program beta_tool -/
+def P : Project :=
+  { ents := [
+      { name := "a.f90".toList, chain := [W.aFile], extUrl := none, parent := none,
+        attrs := [("subroutines", .many [.ent 1]), ("programs", .many [.ent 2])] },
+      { name := "usage".toList, chain := [W.anc "FortranSubroutine" "proc" "usage", W.aFile], extUrl := none,
+        parent := some 0, attrs := [("args", .many []), ("variables", .many [])] },
+      { name := "alpha_tool".toList, chain := [W.anc "FortranProgram" "program" "alpha_tool", W.aFile], extUrl := none,
+        parent := some 0, attrs := [("variables", .many []), ("subroutines", .many [])] },
+      { name := "b.f90".toList, chain := [W.anc "FortranSourceFile" "sourcefile" "b.f90"], extUrl := none, parent := none,
+        attrs := [("subroutines", .many [.ent 4]), ("programs", .many [.ent 5])] },
+      { name := "usage".toList,
+        chain := [W.anc "FortranSubroutine" "proc" "usage~2", W.anc "FortranSourceFile" "sourcefile" "b.f90"],
+        extUrl := none, parent := some 3, attrs := [("args", .many []), ("variables", .many [])] },
+      { name := "beta_tool".toList,
+        chain := [W.anc "FortranProgram" "program" "beta_tool", W.anc "FortranSourceFile" "sourcefile" "b.f90"],
+        extUrl := none, parent := some 3, attrs := [("variables", .many []), ("subroutines", .many [])] }],
+    lists := [("procedures", [.ent 1, .ent 4]), ("programs", [.ent 2, .ent 5]), ("allfiles", [.ent 0, .ent 3])] }
+end W2
+
+/-- The parent step with a source file as parent (non-vacuity of
+    `parent_contents_win_for_every_parent_class`): in the doc of `program beta_tool`, `[[usage]]` and
+    `[[usage(subroutine)]]` select the `usage` of the same file, not the project's first `usage`;
+    from the project file (no context) the first one is taken. -/
+theorem same_file_unit_wins_example :
+    convertLink W.env W2.P (some 5) none { name := "usage".toList }
+      = .link "usage".toList "../proc/usage~2.html".toList ∧
+    convertLink W.env W2.P (some 5) none { name := "usage".toList, kind := some "subroutine".toList }
+      = .link "usage".toList "../proc/usage~2.html".toList ∧
+    convertLink W.env W2.P (some 2) none { name := "usage".toList }
+      = .link "usage".toList "../proc/usage.html".toList ∧
+    convertLink W.env W2.P none (some W.env.base) { name := "usage".toList }
+      = .link "usage".toList "proc/usage.html".toList := by decide
 
 /-- non-vacuity of `lookup_order_partial`: its hypotheses hold for a qualified two-part reference -/
 example : convertLink W.env W.P (some 1) none
